@@ -25,6 +25,10 @@ THEOREMS = {
         "Flurry.C14.removal_count_decreases", "Flurry.C14.grow_test", "Flurry.C14.thresholds"])],
 }
 
+THEOREMS["C09"] = [("Flurry.Props.C09", [
+    "Flurry.C09.all_public_guarded", "Flurry.C09.checkedUsesWith_sound", "Flurry.C09.checkedRow_sound",
+    "Flurry.C09.checked_sound", "Flurry.C09.no_foreign_use"])]
+
 TIERS = {
     "quick": {"seq_cases": 400, "seq_ops": 60, "search_mult": 6},
     "thorough": {"seq_cases": 20000, "seq_ops": 160, "search_mult": 3},
@@ -186,7 +190,70 @@ def check_C14(R):
         seq_step(R, "C14")
 
 
+def lean_eval(imports, body, timeout=600):
+    """run a small Lean script (diagnostics when a table theorem fails); returns its output"""
+    os.makedirs(os.path.join(C.BUILD, "audit"), exist_ok=True)
+    path = os.path.join(C.BUILD, "audit", "Eval_%d.lean" % os.getpid())
+    with open(path, "w") as f:
+        for m in imports:
+            f.write("import %s\n" % m)
+        f.write(body)
+    with C.Lock("lean"):
+        C.sh(["lake", "build"] + imports, cwd=C.LEAN, timeout=timeout)
+        rc, out = C.sh(["lake", "env", "lean", path], cwd=C.LEAN, timeout=timeout)
+    return out
+
+
+def guard_table():
+    """rows of the generated Gen/Guards.lean: (ty, fn, pub, param, nontrivial)"""
+    txt = open(os.path.join(C.LEAN, "Flurry", "Gen", "Guards.lean")).read()
+    rows = []
+    for m in re.finditer(r'ty := "(\w+)", fn := "(\w+)", pub := (true|false), param := "([^"]+)", uses := \[(.*?)\] \}', txt):
+        uses = m.group(5)
+        nontrivial = bool(re.search(r"\.(check|call|raw)\b", uses))
+        rows.append((m.group(1), m.group(2), m.group(3) == "true", m.group(4), nontrivial))
+    return rows
+
+
+def check_C09(R):
+    R.trusted = TRUSTED_COMMON + ["the guard-flow abstraction of extract/src/guards.rs: a use is `check` only if `self.check_guard(g)` is a top-level statement; calls are resolved by receiver shape (self / self.map / self.set / other)"]
+    R.assumptions = ["seize::Guard::collector() identifies the collector; check_guard panics iff it differs (exercised at run time)"]
+    rep = translator_step(R)
+    ok = lean_step(R, "C09")
+    if not ok or R.broken:
+        out = lean_eval(["Flurry.SigDefs", "Flurry.Gen.Guards"],
+                        "open Flurry.Sig Flurry.Gen in\n#eval ((guardFns.filter (·.pub)).filter (fun r => !checkedB guardFns guardFns.length r)).map (fun r => (r.ty, r.fn, r.param))\n")
+        R.add_broken("Lean: all_public_guarded is false for the rows " + " ".join(l for l in out.splitlines() if l.startswith("[")))
+    if not harness_step(R):
+        return
+    rc, out = C.sh([C.HARNESS_BIN, "guards"], timeout=600)
+    try:
+        outs = json.loads([l for l in out.splitlines() if l.startswith("[")][-1])
+    except Exception:
+        R.add_broken("harness `guards` run failed: " + out[-300:])
+        return
+    rows = guard_table()
+    nontrivial = {(t, f, p) for t, f, b, p, nt in rows if nt}
+    public_nt = {(t, f, p) for t, f, b, p, nt in rows if nt and b}
+    exercised = {(o["ty"], o["fn"], o["param"]) for o in outs}
+    distinct = set()
+    for o in outs:
+        key = (o["ty"], o["fn"], o["param"])
+        distinct.add(key + (o["populated"],))
+        what = "%s::%s (guard `%s`) on a%s collection" % (o["ty"], o["fn"], o["param"], " populated" if o["populated"] else "n empty")
+        if o["changed"]:
+            R.add_failing("a call of %s with a guard of a foreign collector changed the map" % what, {"suite": "guards", "how": C.HARNESS_BIN + " guards", "outcome": o})
+        elif o["populated"] and not o["panicked"] and (key in nontrivial or key[0] in ("HashMap", "HashSet")):
+            R.add_failing("%s accepted a guard of a foreign collector (no panic)" % what, {"suite": "guards", "how": C.HARNESS_BIN + " guards", "outcome": o})
+    R.cov.update({"evaluations": len(outs), "distinct_nontrivial": len(distinct),
+                  "rule": "every public guard-accepting method of HashMap/HashSet and every method of the with_guard wrappers, called with a guard of an unrelated seize::Collector on empty and populated collections (list and tree bins) under catch_unwind; distinct by (type, method, guard parameter, populated)",
+                  "samples": outs[:3], "exhaustive": True,
+                  "table_rows": len(rows), "public_rows": len([r for r in rows if r[2]]),
+                  "public_rows_not_exercised_at_runtime": sorted("%s::%s(%s)" % k for k in public_nt - exercised)})
+
+
 CHECKS = {
+    "C09": check_C09,
     "C10": check_C10,
     "C14": check_C14,
 }
